@@ -17,6 +17,9 @@ macro_rules! tiers {
         $q:expr, $t:expr
         $(, calls($($calls:literal),* $(,)?))?
         $(, bounds($qb:literal, $tb:literal))?
+        $(, panics_in($($pi:literal),* $(,)?))?
+        $(, kf_witness($kf:literal))?
+        $(, exhaustive)?
         $(,)?
     ) => {
         pub mod $name {
